@@ -16,7 +16,11 @@ for d in seeded/C*/m*; do
   case "$rc" in
     exit=1) verdict="caught (VIOLATION x$v, natively confirmed)";;
     exit=2) verdict="flagged by solver, not confirmed natively (inconclusive)";;
-    exit=0) verdict="missed";;
+    exit=0) verdict="missed"
+      for rel in $(python3 -c "import json; print(' '.join(json.load(open('$d/meta.json')).get('related_checks',[])))"); do
+        r2=$(tools/run_seeded.sh $rel /verif/$d $tier 2>&1 | grep -o "exit=[0-9]*" | tail -1)
+        [ "$r2" = "exit=1" ] && verdict="not the subject of $pid's check (see meta.json note); caught by $rel (VIOLATION, natively confirmed)"
+      done;;
     *) verdict="error $rc";;
   esac
   echo "| $d | $needs | $verdict |" >> $out
